@@ -41,27 +41,36 @@ func Spec() *run.Spec {
 			"random attribute words, degenerate facets); non-trivial iff n ≥ 2 and (some attribute word ≠ 0 or some normal ≠ 0). " +
 			"large: case i runs the mesh-rt oracle (i even) or the bytes-rt oracle (i odd) on n = largeSizes[(i/2) mod 10] triangles: 4095, 4096, 4097, 5000, 8191, 8192, 8193, 10000, 16385 or a random count in 20000…70000 " +
 			"(around typical batch / buffer sizes); every record is compared in order, so a permuted, overwritten or zero tail is seen. Both ordinary phases also draw 1023/1024/1025/2047/2048/2049. " +
+			"fault-sequences: one case = a history of 3–8 operations in one goroutine mixing complete mesh-rt / bytes-rt cases (n = 0…612) with stl.WriteMesh / stl.Write to a writer that fails for good after k bytes " +
+			"(k in the header, the count field, the first record, the middle of the records, a record boundary or the last byte; refusing or partially accepting the failing call) and stl.Read / stl.ReadMesh from a reader that fails after k bytes; " +
+			"a failing call must report an error, every good operation must pass its complete oracle whatever failed before; non-trivial iff a failure inside the records is followed by a good operation. " +
 			"Distinctness = phase / size bucket / index pattern / normal kind / value class / extras.",
 		Assumptions: []string{
 			"positions are finite and |x| < 1e30 so that float32 rounding never overflows (NaN/Inf are out of reach)",
 			"a facet whose corner-normal mean is shorter than 1e-3 of the longest corner normal has no defined direction: its normal is not compared (counted in normals_skipped_undefined)",
 			"a facet with edge-angle sine ≤ 1e-6 has no defined geometric normal: where the geometric normal is the expected value it is not compared (counted in normals_skipped_degenerate)",
 			"a file written from a mesh without normals may store either the zero vector or the geometric normal; stl.ReadMesh may or may not report a Normal attribute for it (if it does it must be the geometric normal)",
+			"injected writer faults are permanent (every call after the first failing one fails too) and always return a non-nil error; injected reader faults deliver k < 84+50n bytes and then return an error (io.EOF included: a truncated file)",
 			"the 80-byte header and the attribute word of files written from a mesh are not constrained by the property; header preservation by stl.Write(stl.Read(b)) is counted, not judged",
 		},
 		MinNontrivial: map[string]int{"quick": 120, "thorough": 400},
 		MinObserved: map[string]int64{
-			"facets_parsed_independently":  5000,
-			"stored_normals_compared":      1000,
-			"geometric_normals_compared":   200,
-			"readmesh_corners_compared":    10000,
-			"foreign_records_roundtripped": 5000,
-			"index_patterns":               7,
-			"normal_kinds":                 4,
-			"foreign_normal_kinds":         5,
-			"zero_triangle_cases":          20,
-			"large_sizes":                  9,
-			"large_records_compared":       150000,
+			"facets_parsed_independently":             5000,
+			"stored_normals_compared":                 1000,
+			"geometric_normals_compared":              200,
+			"readmesh_corners_compared":               10000,
+			"foreign_records_roundtripped":            5000,
+			"index_patterns":                          7,
+			"normal_kinds":                            4,
+			"foreign_normal_kinds":                    5,
+			"zero_triangle_cases":                     20,
+			"fault_histories":                         1000,
+			"failed_writes_reported":                  1000,
+			"failed_reads_reported":                   300,
+			"good_ops_after_a_failure_in_the_records": 500,
+			"write_fault_positions":                   6,
+			"large_sizes":                             9,
+			"large_records_compared":                  150000,
 		},
 		Phases: []run.Phase{
 			{Name: "mesh-rt", Cases: func(t string) int {
@@ -82,6 +91,12 @@ func Spec() *run.Spec {
 				}
 				return 20
 			}, Run: large, Batch: 2, CPUBudgetS: 120},
+			{Name: "fault-sequences", Cases: func(t string) int {
+				if t == "thorough" {
+					return 60000
+				}
+				return 2500
+			}, Run: faultSequences, Batch: 100, CPUBudgetS: 20},
 		},
 	}
 }
